@@ -38,8 +38,11 @@ Fixpoint path_leb (a b : path) : bool :=
 Fixpoint ins_path (p : path) (l : list path) : list path :=
   match l with [] => [p] | q :: r => if path_leb p q then p :: l else q :: ins_path p r end.
 Definition sort_paths (l : list path) : list path := fold_right ins_path [] l.
+Definition headers_lit : list Ascii.ascii := map Ascii.ascii_of_nat [35; 72; 69; 65; 68; 69; 82; 83].   (* "#HEADERS": BindHeaders on its own *)
 Definition run_sx (x : sx) : sx :=
-  match bind (dec_ty 8 (nth_sx 0 x)) (as_str (nth_sx 1 x)) (dec_data (nth_sx 2 x)) (dec_data (nth_sx 3 x)) (dec_body (nth_sx 4 x)) with
+  match (if str_eqb (as_str (nth_sx 1 x)) headers_lit
+         then match bind_data (dec_ty 8 (nth_sx 0 x)) (dec_data (nth_sx 2 x)) 3 with Writes w => Bound w | Error => Status 400 end
+         else bind (dec_ty 8 (nth_sx 0 x)) (as_str (nth_sx 1 x)) (dec_data (nth_sx 2 x)) (dec_data (nth_sx 3 x)) (dec_body (nth_sx 4 x))) with
   | Status c => SL [SZ 0; of_nat c]
   | Bound ws => SL [SZ 1; SL (map (fun p => SL [SL (map of_nat p);
                                                SL (map SS (match final ws p with Some v => v | None => [] end))]) (sort_paths (dedup_paths ws [])))]
